@@ -661,7 +661,13 @@ func (c *CEnv) evalCall(e *CExpr) Val {
 				}
 				if !known {
 					key := e.Args[0].Name + "." + e.Name[1:]
-					if fc, ok := x.eng.contracts[key]; ok && fc.Pure {
+					fc, ok := x.eng.contracts[key]
+					if c.pkg != nil {
+						if sc, have := x.eng.contracts[c.pkg.Name()+"@"+key]; have {
+							fc, ok = sc, true
+						}
+					}
+					if ok && fc.Pure {
 						if fi := x.eng.funcs[key]; fi != nil {
 							var vs []Val
 							for _, a := range e.Args[1:] {
